@@ -169,6 +169,43 @@ func (f *Frame) external(fn *ssa.Function, args []Val, c *ssa.CallCommon, pos to
 			grow(app("s_len", a(1)))
 			return vc.freshResult(f, sig.Results(), fn.Name()), false
 		}
+	case "sort.Strings":
+		if c != nil && len(args) == 1 && vc.te.sortOf(args[0].typ) == sortSlice {
+			usedAxioms["A2:sort.Strings (result sorted ascending; permutation of the input assumed, not used)"] = true
+			vc.he.havoc(f.cur, externalMod(fn, c))
+			sl := args[0].t
+			l, li := locElem(types.Typ[types.String])
+			row := vc.sc.define("sorted.row", "(Array Int String)", app("select", vc.he.get(f.cur, l, li.sort(vc.te)), app("s_arr", sl)))
+			off := app("s_off", sl)
+			f.assume(fmt.Sprintf("(forall ((?a Int) (?b Int)) (=> (and (<= %s ?a) (< ?a ?b) (< ?b (+ %s (s_len %s)))) (str.<= (select %s ?a) (select %s ?b))))", off, off, sl, row, row))
+			return Val{}, false
+		}
+	case "sort.Slice", "sort.SliceStable":
+		// the elements are permuted (havoc) and end up sorted w.r.t. the given less function:
+		// forall a < b: !less(b, a), with less evaluated on the post-state
+		if c != nil && len(args) == 2 && args[1].fn != nil {
+			usedAxioms["A2:sort.Slice (result sorted w.r.t. less; that it is a permutation of the input is assumed, not used)"] = true
+			m := externalMod(fn, c)
+			vc.he.havoc(f.cur, m)
+			sl := vc.te.unboxSliceArg(args[0])
+			if sl != "" {
+				lessFn := args[1].fn
+				vc.pure++
+				saved := vc.stack
+				savedReach := f.reach[f.curB]
+				vc.stack = nil
+				// quantify over absolute positions ?a < ?b of the backing array (plain select patterns)
+				off := app("s_off", sl)
+				res, term := f.inline(lessFn, []Val{{t: app("-", "?b", off), typ: intT}, {t: app("-", "?a", off), typ: intT}}, args[1].bind)
+				vc.stack = saved
+				f.reach[f.curB] = savedReach
+				vc.pure--
+				if !term && res.t != "" {
+					f.assume(fmt.Sprintf("(forall ((?a Int) (?b Int)) (=> (and (<= %s ?a) (< ?a ?b) (< ?b (+ %s (s_len %s)))) (not %s)))", off, off, sl, res.t))
+				}
+			}
+			return Val{}, false
+		}
 	case "strconv.Itoa":
 		vc.sc.decl("strconv.Itoa", "(declare-fun strconv.Itoa (Int) String)")
 		return Val{t: app("strconv.Itoa", a(0)), typ: strT}, false
